@@ -571,8 +571,15 @@ type FuncContract struct {
 	Loops       []*LoopContract
 	Asserts     []Clause // extra call-site/at-exit assertions (unused for now)
 	SigSrc      string
+	GhostSets   []GhostSet // ghost assignments performed at every return
 	// closures expanded at iteration primitives: invariants keyed by ordinal
 	Iterates *IterSpec
+}
+
+// GhostSet is a ghost assignment "lhs := rhs" executed when the function returns.
+type GhostSet struct {
+	Lhs, Rhs Expr
+	Src      string
 }
 
 // IterSpec marks a function as an iteration primitive: calling it with a closure runs the closure
@@ -597,6 +604,7 @@ type GhostField struct {
 	Name  string
 	T     *TypeExpr
 	Pkg   string
+	CF    *ContractFile
 }
 
 type MonitorDecl struct {
@@ -624,7 +632,7 @@ var declKeywords = map[string]bool{
 	"import": true, "ghost": true, "pure": true, "axiom": true, "func": true, "extern": true,
 	"requires": true, "ensures": true, "modifies": true, "allocates": true, "loop": true, "invariant": true,
 	"inline": true, "trusted": true, "monitor": true, "guards": true, "atomics": true, "heappure": true,
-	"iterates": true, "nomod": true,
+	"iterates": true, "nomod": true, "ghostset": true,
 }
 
 // logicalLines extracts //@ lines and joins continuation lines (those not starting with a keyword).
@@ -897,6 +905,23 @@ func ParseContractFile(path, pkgPath, text string) (*ContractFile, error) {
 			if cur != nil {
 				cur.HasModifies = true
 			}
+		case "ghostset":
+			if cur == nil {
+				return nil, fail(l, fmt.Errorf("ghostset outside func"))
+			}
+			parts := strings.SplitN(rest, ":=", 2)
+			if len(parts) != 2 {
+				return nil, fail(l, fmt.Errorf("ghostset lhs := rhs"))
+			}
+			lhs, err := parseExprString(strings.TrimSpace(parts[0]))
+			if err != nil {
+				return nil, fail(l, err)
+			}
+			rhs, err := parseExprString(strings.TrimSpace(parts[1]))
+			if err != nil {
+				return nil, fail(l, err)
+			}
+			cur.GhostSets = append(cur.GhostSets, GhostSet{lhs, rhs, rest})
 		case "allocates":
 			if cur == nil {
 				return nil, fail(l, fmt.Errorf("allocates outside func"))
